@@ -845,12 +845,29 @@ func (z *Decimal) FMA(x, y, u *Decimal) *Decimal {
 
 	if x.form == finite && y.form == finite {
 		// x * y (common case)
-		// prevent rounding in umul
-		prec := z0.prec
-		z0.prec = MaxPrec
-		z0.umul(x, y)
-		// restore precision without rounding
-		z0.prec = prec
+		// The product must not be rounded, and it can have more digits than
+		// MaxPrec: multiply the mantissas here instead of calling umul.
+		e := int64(x.exp) + int64(y.exp)
+		if x == y {
+			z0.mant = z0.mant.sqr(x.mant)
+		} else {
+			z0.mant = z0.mant.mul(x.mant, y.mant)
+		}
+		e -= dnorm(z0.mant)
+		z0.acc = Exact
+		switch {
+		case e < MinExp:
+			// underflow
+			z0.acc = makeAcc(z0.neg)
+			z0.form = zero
+		case e > MaxExp:
+			// overflow
+			z0.acc = makeAcc(!z0.neg)
+			z0.form = inf
+		default:
+			z0.form = finite
+			z0.exp = int32(e)
+		}
 		return z.Add(z0, u)
 	}
 
